@@ -8,7 +8,7 @@
    iter_index t it = number of items before position it (= distance from begin).
    All statements hold for every 1 <= maxCapacity <= 255, every capacityStep, blockCount, search strategy. *)
 From Coq Require Import ZArith List.
-From C02 Require Import BTreeModel BTreeParams BTreeBase BTreeSearch BTreeIter BTreeAdd BTreeRemove BTreeTop BTreeHist BTreeRemoveTop.
+From C02 Require Import BTreeModel BTreeParams BTreeBase BTreeSearch BTreeIter BTreeAdd BTreeRemove BTreeCtx BTreeRemove2 BTreeTrack BTreeRemove3 BTreeTop BTreeHist BTreeRemoveTop BTreeHist2.
 Import ListNotations.
 Local Open Scope Z_scope.
 
@@ -179,28 +179,99 @@ Theorem C02_rebalance_preserves_flatten :
 Proof. exact rebalance_preserves. Qed.
 Print Assumptions C02_rebalance_preserves_flatten.
 
-(* remove_refines, proved part: Remove(iterator) of an item stored in a LEAF (node->Remove, then pvRebalance):
-   WF and mCount are kept and the sequence loses exactly the item at the iterator's index.
-   NOT proved: the index of the returned iterator, and removal of an item stored in an internal node
-   (pvRemoveInternal); both are in the model and compared with the real code on every run. *)
-Theorem C02_remove_leaf_refines_partial :
+(* remove_refines: Remove(iterator) for EVERY position that holds an item: an item of a leaf, a separator whose left
+   subtree has items (replaced by its in-order predecessor, found on the rightmost spine skipping empty nodes) and a
+   separator whose left subtree is empty (pvDestroyInternal), each followed by pvRebalance (root collapse, lazy
+   merges) and pvMakeIterator(savedNode, index, move=true).  WF and mCount are kept, the sequence loses exactly the
+   item at the iterator's index, and the returned iterator is normalised and denotes that same index (the saved node
+   is tracked through every merge). *)
+Theorem C02_remove_refines :
   forall maxCap : nat, (1 <= maxCap <= 255)%nat -> forall (t : tree) (it : iter),
     twf maxCap t -> tvalid t it -> titem t it ->
-    (match root t with Some r => length (fst it) = height r | None => True end) ->
-    let t' := fst (remove t it) in
-    twf maxCap t' /\ contents t' = remove_at (iter_index t it) (contents t).
-Proof. exact remove_leaf_refines. Qed.
-Print Assumptions C02_remove_leaf_refines_partial.
+    let '(t', it') := remove t it in
+    twf maxCap t' /\ contents t' = remove_at (iter_index t it) (contents t) /\
+    norm t' it' /\ iter_index t' it' = iter_index t it.
+Proof. exact remove_refines. Qed.
+Print Assumptions C02_remove_refines.
 
-(* lifted over ALL finite histories of Insert / Clear from the empty container: the state is WF, sorted
-   (non-decreasing / strictly increasing) and equals the reference sequence computed by the list-level spec. *)
-Theorem C02_history_refines_partial :
+(* ResetKey(iter, key): the item at the iterator's index is overwritten in place, everything else untouched. *)
+Theorem C02_reset_key_refines :
+  forall maxCap : nat, (1 <= maxCap <= 255)%nat -> forall (t : tree) (it : iter) (k : Z),
+    twf maxCap t -> tvalid t it -> titem t it ->
+    let t' := reset_key t it k in
+    twf maxCap t' /\ contents t' = replace_at (iter_index t it) k (contents t).
+Proof. exact reset_key_spec. Qed.
+Print Assumptions C02_reset_key_refines.
+
+(* Remove(key) for unique keys: removes the item at the lower bound iff the key is present, returns 1/0. *)
+Theorem C02_remove_key_refines :
+  forall (maxCap : nat) (linear multi : bool), (1 <= maxCap <= 255)%nat ->
+  forall (t : tree) (k : Z), twf maxCap t -> sorted multi (contents t) ->
+    let t' := fst (remove_key linear t k) in
+    twf maxCap t' /\
+    contents t' = (if contains linear t k then remove_at (lb_index (contents t) k) (contents t) else contents t) /\
+    snd (remove_key linear t k) = (if contains linear t k then 1 else 0)%nat.
+Proof. exact remove_key_spec. Qed.
+Print Assumptions C02_remove_key_refines.
+
+(* Remove(predicate): the begin..end loop of Remove(iter) / ++ leaves exactly the items that do not satisfy it. *)
+Theorem C02_remove_if_refines :
+  forall maxCap : nat, (1 <= maxCap <= 255)%nat -> forall (P : Z -> bool) (t : tree), twf maxCap t ->
+    twf maxCap (remove_if P t) /\ contents (remove_if P t) = filter (fun x => negb (P x)) (contents t).
+Proof. exact remove_if_spec. Qed.
+Print Assumptions C02_remove_if_refines.
+
+(* GetKeyCount: upper-bound index minus lower-bound index for multi keys (the counting loop), 1/0 for unique keys. *)
+Theorem C02_key_count_agrees :
+  forall (maxCap : nat) (linear multi : bool), (1 <= maxCap <= 255)%nat ->
+  forall (t : tree) (k : Z), twf maxCap t -> sorted multi (contents t) ->
+    key_count linear multi t k =
+      if multi then (ub_index (contents t) k - lb_index (contents t) k)%nat
+      else if contains linear t k then 1%nat else 0%nat.
+Proof. exact key_count_spec. Qed.
+Print Assumptions C02_key_count_agrees.
+
+(* copy constructor (pvCopy re-creates every node in pre-order with fresh leaf capacities): WF and same sequence. *)
+Theorem C02_copy_refines :
+  forall maxCap stepRaw blockCount : nat, (1 <= maxCap <= 255)%nat -> forall t : tree, twf maxCap t ->
+    twf maxCap (copy_tree maxCap stepRaw blockCount t) /\ contents (copy_tree maxCap stepRaw blockCount t) = contents t.
+Proof. exact copy_tree_spec. Qed.
+Print Assumptions C02_copy_refines.
+
+(* a hinted Add whose hint is right (previous item ordered before the key, next item ordered after) keeps the order *)
+Theorem C02_right_hint_keeps_sorted :
+  forall (maxCap : nat) (multi : bool), (1 <= maxCap <= 255)%nat ->
+  forall (l : list Z) (h : nat) (k : Z), sorted multi l -> hint_ok multi l h k = true -> sorted multi (insert_at h k l).
+Proof. exact hint_sorted. Qed.
+Print Assumptions C02_right_hint_keeps_sorted.
+
+(* MergeTo / MergeFrom, proved part: the GENERIC path pvMergeTo (for each source item: dst.InsertCrt whose creator
+   Extracts it from the source).  Both containers stay WF, the destination stays sorted and the pair of sequences
+   equals the list-level stable merge spec_merge: every source item goes to ITS upper bound in the destination
+   (destination items before equivalent source items), refused duplicates (unique keys) stay in the source.
+   NOT proved: pvMergeToLinear and the path selection (both modelled and compared with the real code incl. node
+   shapes on every run), pvMergeFast (not modelled; covered by the oracle only). *)
+Theorem C02_merge_generic_refines_partial :
   forall (maxCap stepRaw blockCount : nat) (linear multi : bool), (1 <= maxCap <= 255)%nat ->
-  forall ops : list op,
-    let t := fold_left (step maxCap stepRaw blockCount linear multi) ops empty_tree in
-    twf maxCap t /\ sorted multi (contents t) /\ contents t = fold_left (spec_step multi) ops [].
-Proof. exact history_refines. Qed.
-Print Assumptions C02_history_refines_partial.
+  forall src dst : tree, twf maxCap src -> twf maxCap dst -> sorted multi (contents dst) ->
+    let res := merge_generic maxCap stepRaw blockCount linear multi (S (length (contents src))) src dst (begin_iter src) in
+    twf maxCap (fst res) /\ twf maxCap (snd res) /\ sorted multi (contents (snd res)) /\
+    (contents (fst res), contents (snd res)) = spec_merge multi (contents src) (contents dst).
+Proof. exact merge_generic_refines. Qed.
+Print Assumptions C02_merge_generic_refines_partial.
+
+(* lifted over ALL finite histories over the alphabet Insert / hinted Add (right hint: Add at that position, wrong
+   hint: Insert) / Remove(iterator at index h) / Remove(key) / ResetKey (when it keeps the order) / Clear, from the
+   empty container (Extract+Insert is the two-op sequence Remove(iterator); Insert): the state is WF, sorted
+   (non-decreasing / strictly increasing), mCount is exact, and the sequence equals the list-level reference. *)
+Theorem C02_history_refines :
+  forall (maxCap stepRaw blockCount : nat) (linear multi : bool), (1 <= maxCap <= 255)%nat ->
+  forall ops : list BTreeHist2.op,
+    let t := fold_left (BTreeHist2.step maxCap stepRaw blockCount linear multi) ops empty_tree in
+    twf maxCap t /\ sorted multi (contents t) /\ contents t = fold_left (BTreeHist2.spec_step multi) ops [] /\
+    cnt t = length (contents t).
+Proof. exact BTreeHist2.history_refines. Qed.
+Print Assumptions C02_history_refines.
 
 (* the list-level specification itself keeps the order *)
 Theorem C02_spec_insert_sorted :
@@ -210,7 +281,7 @@ Print Assumptions C02_spec_insert_sorted.
 
 (* non-vacuity: a concrete reachable state (maxCapacity 2, ten insertions with duplicates) has height 2 *)
 Theorem C02_nonvacuous_example :
-  let t := fold_left (step 2 1 8 false true) example_ops empty_tree in
+  let t := fold_left (BTreeHist.step 2 1 8 false true) example_ops empty_tree in
   contents t = [1; 2; 3; 3; 3; 5; 6; 7; 8; 9] /\ option_map height (root t) = Some 2%nat /\ cnt t = 10%nat.
 Proof. exact example_nonvacuous. Qed.
 Print Assumptions C02_nonvacuous_example.
